@@ -129,6 +129,13 @@ PENDING = {
         "rechunk(balance=True) with a zero-length axis (array not entirely empty) divides by zero in _balance_chunksizes",
 }
 
+# found by the parameter audit (family zerochunk); fix proposed in fixes_ready/C23_01_merge_to_number_zero_width_chunks.patch
+for _op in ("plan_rechunk", "rechunk"):
+    for _exc in ("AssertionError", "IndexError"):
+        PENDING["%s:zero-width-chunk:%s@array/rechunk.py:merge_to_number" % (_op, _exc)] = (
+            "an explicit target with zero-width chunks makes merge_to_number fail in the split pass of the planner "
+            "(0 is used as the 'merged away' marker)")
+
 BYTES = ["8B", "16 B", "64B", "100 B", "128B", "1KiB", "1kB", "4KiB"]
 LIMITS = [None, None, 1, 8, 16, 64, 100, 1000, 1000.0, "128B", "1KiB", "64 B"]
 NC_DTYPES = ["int8", "bool", "float32", "float64", "complex128", "int64", "datetime64[ns]", "S3", "U2"]
@@ -778,6 +785,14 @@ def _rx_case(rng):
     elif flav == "zerochunk":
         shape = A.rand_shape(rng, maxnd=2, maxlen=8, minnd=1, allow_zero=False)
         src, t = list(A.rand_chunks(rng, shape)), list(A.rand_chunks(rng, shape))
+        if rng.random() < 0.5:
+            # thin x fat chunkings exchanged between two axes under a small limit: plans with a split pass
+            shape = tuple(rng.choice((4, 5, 6, 8, 9)) for _ in range(2))
+            a = rng.randrange(2)
+            src = [A.rand_comp(rng, n, "ones" if i == a else rng.choice(("one", "two"))) for i, n in enumerate(shape)]
+            t = [A.rand_comp(rng, n, rng.choice(("one", "two")) if i == a else rng.choice(("ones", "irregular", "regular")))
+                 for i, n in enumerate(shape)]
+            case.update(threshold=rng.choice((1, 1, 0.5, 2)), bsl=rng.choice((8, 16, 64)), dtype="float64")
         where = rng.choice(("src", "tgt", "both"))
         for i in range(len(shape)):
             if where in ("src", "both") and (rng.random() < 0.7 or i == 0):
